@@ -56,9 +56,15 @@ func NewConnection(connection net.Conn, context Context) *Connection {
 // EncryptedWrite encrypts and writes bytes to the connection.
 // The method returns the number of written bytes and an error when writing failed.
 func (con *Connection) EncryptedWrite(b []byte) (int, error) {
+	// The session (and its encrypter) is removed when the connection is closed by another goroutine
+	encrypter := con.getEncrypter()
+	if encrypter == nil {
+		return 0, io.ErrClosedPipe
+	}
+
 	var buffer bytes.Buffer
 	buffer.Write(b)
-	encrypted, err := con.getEncrypter().Encrypt(&buffer)
+	encrypted, err := encrypter.Encrypt(&buffer)
 
 	if err != nil {
 		log.Info.Panic("Encryption failed:", err)
